@@ -133,6 +133,9 @@ static void *sworker(void *p) {
                 int e = liberasurecode_encode(bad, d8, 8, &ed, &ep, &fl);
                 if (e >= 0) { w.err = "encode on unknown descriptor " + std::to_string(bad) + " succeeded"; break; }
             }
+            // the other descriptor-less query: an installed back end is available at every instant, whatever state
+            // other threads' instances of it are in
+            for (unsigned id : {6u, 3u, 0u}) { int av = liberasurecode_backend_available(id); if (av <= 0 && w.err.empty()) w.err = "backend_available(" + std::to_string(id) + ") = " + std::to_string(av) + " for an installed back end while another thread was inside the library"; }
             break;
         }
         case S_QUERY_SHARED: {
